@@ -186,3 +186,28 @@ def mval(m, e):
     if z3.is_false(v): return 0
     raise ValueError('no numeric value for %s: %s' % (e, v))
 
+
+
+def agg_core(ck, name, queries, timeout_s=60, purify_all=False):
+    """One obligation made of several path queries [(assumptions, negated_goal)], all of which must be unsat.
+    Non-triviality is measured on the first query: its negated goal WITHOUT the code-derived assumptions must be satisfiable."""
+    if not queries: return None, None
+    jobs = []
+    for i, (a, g) in enumerate(queries):
+        c = list(a) + list(g)
+        jobs.append((i, purify(c) if purify_all else c))
+    out = parallel_check(jobs, timeout_s=timeout_s)
+    bad = [i for i in out if out[i][0] != 'unsat']
+    st = 'unsat' if not bad else ('sat' if any(out[i][0] == 'sat' for i in bad) else 'unknown')
+    nontriv = None
+    g0 = list(queries[0][1])
+    if g0:
+        pr = check(purify(g0) if purify_all else g0, min(timeout_s, 15))[0]
+        nontriv = (pr == 'sat')
+    else:
+        nontriv = True      # the obligation is "this path is infeasible": it depends entirely on the path condition
+    sat_i = [i for i in bad if out[i][0] == 'sat']
+    mdl = out[sat_i[0]][2] if sat_i else None
+    ck.obligation('%s (%d path queries)' % (name, len(jobs)), st, sum(v[1] for v in out.values()), nontriv, {'model': mdl} if mdl else ({'undecided_queries': len(bad)} if bad else None))
+    if VERBOSE: print('  [%s] %s (%d queries) nontrivial=%s' % (st, name, len(jobs), nontriv), flush=True)
+    return st, mdl
